@@ -82,8 +82,11 @@ def run_case(case, ctx):
     ctx.check("0<=p<=1", 0.0 <= got <= 1.0 + 1e-12, observed=got)
     # deterministic load and the limit of vanishing load scatter
     simple = float(np.asarray(fp.pf_simple_load(L)))
-    es = float(norm.cdf((math.log10(L) - math.log10(S)) / sS))
-    ctx.check("pf_simple_load==cdf", abs(simple - es) <= 1e-12 * es + 1e-300, observed=simple, expected=es)
+    zs = (math.log10(L) - math.log10(S)) / sS
+    es = float(norm.cdf(zs))
+    # a rounding error of a few ulps in z moves the tail probability by z^2 ulps relatively: d ln Phi(z) / d ln z ~ z^2
+    ctx.check("pf_simple_load==cdf", abs(simple - es) <= (1e-12 + 32 * 2.2e-16 * zs * zs) * es + 1e-300, observed=simple, expected=es,
+              detail={"z": zs})
     tiny = sS * 1e-3
     lim = float(fp.pf_norm_load(L, tiny))
     el = closed(L, tiny, S, sS)
